@@ -237,6 +237,26 @@ def run(ctx):
     if not nret:
         raise AnalysisError('construct not understood: getreader returns no reader')
 
+    # R-OWNOPTS: pncopen's own options are taken out of the keywords before the sniffers see them
+    ctx.rule('R-OWNOPTS', 'pncopen removes its own options (help, format, addcf, diskless) from the keywords before the detection is asked (isMine(path) takes no such keyword)')
+    po = mod.func('pncopen')
+    body_ = list(iter_stmts(po.body))
+    gr = [i_ for i_, st in enumerate(body_) if any(isinstance(c, ast.Call) and dotted(c.func) == 'getreader' for c in walk_expr(st) if not isinstance(st, (ast.If, ast.For, ast.While, ast.Try, ast.With)))]
+    pops = {}
+    for i_, st in enumerate(body_):
+        for c in walk_expr(st) if not isinstance(st, (ast.If, ast.For, ast.While, ast.Try, ast.With)) else []:
+            if isinstance(c, ast.Call) and dotted(c.func) == 'kwds.pop' and c.args and isinstance(c.args[0], ast.Constant):
+                pops[c.args[0].value] = (i_, st)
+    wpo = 'src/PseudoNetCDF/%s pncopen' % REG
+    if not gr:
+        ctx.undec('R-OWNOPTS', 'pncopen', wpo, 'no call of getreader')
+    else:
+        late = sorted(k_ for k_, (i_, st) in pops.items() if i_ > gr[0] and k_ in ('addcf', 'diskless', 'help', 'format'))
+        if late:
+            ctx.violation(Finding('R-OWNOPTS', REG, 'pncopen', pops[late[0]][1], 'the option %s is removed from the keywords only after getreader(*args, **kwds) has handed them to the sniffers: pncopen(path, %s=...) '
+                                  'raises TypeError in every isMine(path) for an undeclared format, while the same call with format= works' % (late[0], late[0])))
+        else:
+            ctx.ok('R-OWNOPTS', 'pncopen', wpo, 'options %s popped before detection' % sorted(pops))
     # R-SNIFFAGREE: the ICARTT sniffer accepts every first line its reader accepts (finite case analysis of the sniffer on sample lines)
     ctx.rule('R-SNIFFAGREE', 'ffi1001.isMine accepts exactly the first lines that ffi1001.__init__ accepts (comma and/or blank delimited "n, 1001")')
     from .. import consteval
